@@ -3,7 +3,11 @@ From Coq Require Import NArith List.
 From MZ.lib Require Import Arr Mach.
 From MZ.model Require Import InflateCore.
 From MZ.proofs Require Import InflateBasic InflateFrame3 InflateStreamProgress.
-From Coq Require Import List.
+From Coq Require Import List ZArith.
+From MZ.spec Require Adler Zlib.
+From MZ.model Require InflateStream.
+From MZ.proofs Require StoredSpec InflateStoredLimit.
+Import ListNotations.
 Local Open Scope N_scope.
 
 (* Every normal return of decompress_with_limit, for every decoder value, input, output slice,
@@ -38,6 +42,42 @@ Theorem C08_driver_loop_progress :
   input <> nil -> 0 < N.min out_max (alen o - out_pos) ->
   (cr_status res = NeedsMoreInput -> 0 < cr_in res) /\ (cr_status res = HasMoreOutput -> 0 < cr_out res).
 Proof. exact decompress_progress. Qed.
+
+(* "The size-limited vector functions never return more than the limit, succeed when the true size equals the limit,
+   and otherwise fail with the decoded prefix" - on streams of stored blocks (zlib with the right trailer, or raw;
+   arbitrary bytes may follow): decompress_to_vec_inner with a maximum output size returns the whole payload iff its
+   length is <= the limit (equality included), and otherwise HasMoreOutput with exactly the first [limit] bytes *)
+Theorem C08_vector_limit_on_stored_streams_partial :
+  forall flags0 cmf flg chunks last extra limit,
+  (has (N.lor flags0 F_NONWRAP) F_ZLIB = true -> has (N.lor flags0 F_NONWRAP) F_STOPBB = false ->
+   cmf < 256 -> flg < 256 -> Zlib.valid_header (Z.of_N cmf) (Z.of_N flg) = true ->
+   StoredSpec.chunks_ok chunks -> StoredSpec.bytes_ok last -> N.of_nat (length last) <= 65535 ->
+   let data := concat chunks ++ last in
+   let input := (cmf :: flg :: StoredSpec.stored_stream chunks last ++ StoredSpec.be32 (Adler.adler32 1 data)) ++ extra in
+   N.of_nat (length input) < 2 ^ 57 ->
+   InflateStream.decompress_to_vec_inner input flags0 limit
+   = Ret (if N.of_nat (length data) <=? limit then InflateStream.VOk data
+          else InflateStream.VErr HasMoreOutput (firstn (N.to_nat limit) data))) /\
+  (has (N.lor flags0 F_NONWRAP) F_ZLIB = false -> has (N.lor flags0 F_NONWRAP) F_STOPBB = false ->
+   StoredSpec.chunks_ok chunks -> StoredSpec.bytes_ok last -> N.of_nat (length last) <= 65535 ->
+   let data := concat chunks ++ last in
+   let input := StoredSpec.stored_stream chunks last ++ extra in
+   N.of_nat (length input) < 2 ^ 57 ->
+   InflateStream.decompress_to_vec_inner input flags0 limit
+   = Ret (if N.of_nat (length data) <=? limit then InflateStream.VOk data
+          else InflateStream.VErr HasMoreOutput (firstn (N.to_nat limit) data))).
+Proof.
+  intros flags0 cmf flg chunks last extra limit. split.
+  - exact (InflateStoredLimit.to_vec_limit_zlib_stored_stream flags0 cmf flg chunks last extra limit).
+  - exact (InflateStoredLimit.to_vec_limit_raw_stored_stream flags0 chunks last extra limit).
+Qed.
+
+Example C08_limit_equal_and_below :
+  let s := StoredSpec.stored_stream [[97; 98; 99]] [100; 101] in
+  InflateStream.decompress_to_vec_inner s 0 5 = Ret (InflateStream.VOk [97; 98; 99; 100; 101]) /\
+  InflateStream.decompress_to_vec_inner s 0 4 = Ret (InflateStream.VErr HasMoreOutput [97; 98; 99; 100]) /\
+  InflateStream.decompress_to_vec_inner s 0 0 = Ret (InflateStream.VErr HasMoreOutput []).
+Proof. vm_compute. repeat split; reflexivity. Qed.
 
 (* non-vacuity: a call that returns HasMoreOutput with a 3-byte budget inside a larger buffer *)
 Example C08_budget_example :
